@@ -32,6 +32,7 @@ type AdvMsg struct {
 type Label struct {
 	A  string `json:"a"`
 	X  string `json:"x"`
+	F  int    `json:"f"` // flags of an addition
 	Ok bool   `json:"ok"`
 }
 
@@ -293,7 +294,7 @@ func runPex(c *Case, out *Out) {
 		switch st.A.A {
 		case "Add":
 			present[st.A.X] = true
-			peer.VerifHandleEvent(p, peer.PeerPex{Peers: []pex.Peer{{Addr: addrs[st.A.X]}}, Add: true})
+			peer.VerifHandleEvent(p, peer.PeerPex{Peers: []pex.Peer{{Addr: addrs[st.A.X], Flags: byte(st.A.F)}}, Add: true})
 		case "Del":
 			delete(present, st.A.X)
 			peer.VerifHandleEvent(p, peer.PeerPex{Peers: []pex.Peer{{Addr: addrs[st.A.X]}}, Add: false})
